@@ -107,10 +107,16 @@ inline void rand_bits_exact(mpz_ptr r, unsigned long bits, vf::Rng &rng) { rng.m
 // p = kq+1 with exactly Fbits/Gbits bits; shared=true: q divides k (gcd(k,q) = q, everything else fine)
 inline void gen_schnorr(Z &p, Z &q, Z &k, unsigned long Fbits, unsigned long Gbits, vf::Rng &rng, bool shared) {
 	do { rand_bits_exact(q, Gbits, rng); mpz_nextprime(q, q); } while (mpz_sizeinbase(q, 2) != Gbits);
-	unsigned long mbits = Fbits - Gbits - (shared ? Gbits : 0);
-	Z m, g;
+	// p = m*Q + 1 with Q = q (resp. q^2): draw m from the interval that gives exactly Fbits bits
+	Z Q, lo, hi, span, m, g;
+	if (shared) mpz_mul(Q, q, q); else mpz_set(Q, q);
+	mpz_set_ui(lo, 1); mpz_mul_2exp(lo, lo, Fbits - 1); mpz_fdiv_q(lo, lo, Q); mpz_add_ui(lo, lo, 1);
+	mpz_set_ui(hi, 1); mpz_mul_2exp(hi, hi, Fbits); mpz_sub_ui(hi, hi, 1); mpz_fdiv_q(hi, hi, Q);
+	mpz_sub(span, hi, lo);
+	if (mpz_cmp_ui(span, 16) < 0) { fprintf(stderr, "gen_schnorr: sizes too close\n"); exit(2); }
 	for (;;) {
-		rand_bits_exact(m, mbits, rng); mpz_clrbit(m, 0);
+		rng.mpz_below(m, span); mpz_add(m, m, lo); if (mpz_odd_p(m)) mpz_add_ui(m, m, 1);
+		if (mpz_cmp(m, hi) > 0) continue;
 		if (shared) mpz_mul(k, m, q); else mpz_set(k, m);
 		mpz_gcd(g, m, q); if (mpz_cmp_ui(g, 1)) continue;
 		mpz_mul(p, k, q); mpz_add_ui(p, p, 1);
